@@ -76,3 +76,17 @@ Proof.
   - apply negb_true_iff, N.eqb_neq in H. contradiction.
   - apply block_eqb_eq. exact H.
 Qed.
+
+Definition files_final_b (c : jcfg) (w : world) (merged : list block) : bool :=
+  forallb (fun k => let h := w_hub (world_after c k w) in
+                    negb (h_ready h) || forallb (fun b => bnum b <=? rn (libref (db (h_f h)))) merged)
+          (seq 0 (S (length (w_rest w)))).
+
+Lemma files_final_b_sound c w merged : files_final_b c w merged = true -> files_final c w merged.
+Proof.
+  unfold files_final_b. intros H k b Hrd Hb. rewrite forallb_forall in H.
+  rewrite (world_after_min c k w) in Hrd |- *.
+  assert (Hin : In (Nat.min k (length (w_rest w))) (seq 0 (S (length (w_rest w))))) by (apply in_seq; lia).
+  specialize (H _ Hin). cbv zeta in H. rewrite Hrd in H. cbn [negb orb] in H.
+  rewrite forallb_forall in H. apply N.leb_le. apply H. exact Hb.
+Qed.
